@@ -551,7 +551,7 @@ func (e *intEnv) expr(x ast.Expr, sc scope) string {
 		}
 	}
 	e.o.problem("%s: untranslatable expression %T", e.ctx, x)
-	return "sorryUntranslated"
+	return "Sqroot.untranslated"
 }
 
 // block turns statements followed by continuation `rest` into one Lean expression.
